@@ -11,6 +11,12 @@ NOTE_S = ("Trusted base: the vrewrite source rewriter and the vz shim packages (
 NOTE_E = ("Engine E runs the unmodified mangos code under the real Go scheduler and real OS transports: inputs, configurations and operation lists are enumerated exhaustively over the stated finite sets, goroutine schedules and kernel segmentation are not controlled; hang verdicts use generous watchdogs; the harness codecs/reference decoders are trusted.")
 
 claimed = {
+ "C16": ("stateless model checking of the rewritten real code over an in-memory network: exhaustive enumeration of hostile handshakes, length fields, truncation points and protocol-level bodies with a reference parser per pattern, plus schedule exploration of a stalled handshake beside a good peer",
+         "transport/tcp and transport/conn.go run unmodified in logic over the harness' in-memory net (only the import is redirected): every single-byte deviation of the 8-byte header, every truncation (0..8 bytes then EOF/reset/silence), garbage after a valid header; length fields {-1, min, 0, 1, limit-1, limit, limit+1, 2^31, 2^32, max} x {no, short, exact body} x MaxRecvSize {default, 1, 1024, 0}: delivered iff well-formed and in limit, otherwise dropped at once with zero further bytes read and no allocation of the announced size; every truncation point of a frame; every body of length <= 4 (quick) / 6 (thorough) over {00,01,7f,80,ff} into every receiving socket kind compared with a reference parser; a well-behaved control peer is served throughout.",
+         "DESIGN.md §6 C16"),
+ "C20": ("bounded-exhaustive enumeration on the built macat binary (engine E): all 1-byte and all 2-byte bodies, escape alphabet bodies, msgpack length boundaries x formats x receiving patterns with independent decoders; data/file x count x sending pattern; option-conflict grid; duration units",
+         "macat is run as a subprocess against harness sockets: every 1-byte body (and every 2-byte body on pull), bodies over the escape alphabet, lengths {0,1,254..257,65534..65537} in raw/ascii/quoted/msgpack on 11 receiving variants, each followed by a sentinel record and decoded by independent decoders; --data/--file bytes arrive exactly --count times unchanged for each sending pattern; every conflicting/missing option combination is rejected without connecting; bare-integer durations mean seconds (lower bound asserted).",
+         "DESIGN.md §6 C20"),
  "C11": ("stateless model checking of the rewritten, race-instrumented real code: all two-thread programs of API calls from a 28-operation alphabet on each of the 24 socket kinds, all schedules within the deviation bound, with a vector-clock happens-before race detector fed by the shims and by instrumented field / package-variable accesses",
          "vrewrite -race inserts a read/write notification before every statement that accesses a field of a module-declared struct through a pointer or a package variable; the scheduler keeps vector clocks over locks, channels, conds, once, go, timers, atomics and pools, so an unordered conflicting pair is reported in every execution in which it is unordered, not only when adjacent. For each socket kind every pair of operations (quick: at least one state-changing) from {Send, Recv, peer delivers/drops/connects, SetOption x10, GetOption x4, OpenContext, ctx.Send/Recv/Close, Pipe.Close, Dial, Listen, SetPipeEventHook, Close} runs concurrently against a connected socket; no panic, no deadlock, no race, every call returns an error its contract allows, and the socket still answers and closes afterwards.",
          "DESIGN.md §6 C11"),
@@ -70,7 +76,7 @@ claimed.update({
          "For all 12 protocol numbers (24 socket types) and both roles the first 8 bytes mangos writes are compared with the SP header; every single-byte deviation of the peer header (8x255) and every wrong-but-well-formed protocol number must be refused while a following good peer is accepted; frames mangos writes are parsed by an independent codec (8-byte BE length, 0x01 on IPC, header||body) and codec-written frames, split at every prefix position, must be delivered intact; WebSocket subprotocol negotiation and one-binary-frame-per-message are checked with a hand-written RFC 6455 endpoint.",
          "DESIGN.md §6 C15"),
 })
-ENGINE_OF = {"C01": "E", "C15": "E", "C19": "E", "C20": "E"}
+ENGINE_OF = {"C01": "S+E", "C15": "S+E", "C19": "E", "C20": "E"}
 not_applicable = {}
 ALL = [f"C{i:02d}" for i in range(1, 21)]
 for pid in ALL:
@@ -87,7 +93,7 @@ for pid, (tech, text, ref) in sorted(claimed.items()):
         "replay_cmd_template": f"./check {pid} quick --replay {{path}}",
         "engine": ENGINE_OF.get(pid, "S"),
         "level_claimed": {"category": "model_checking", "text": text, "design_ref": ref},
-        "level_note": NOTE_E if ENGINE_OF.get(pid) == "E" else NOTE_S,
+        "level_note": (NOTE_S + " " + NOTE_E) if ENGINE_OF.get(pid) == "S+E" else (NOTE_E if ENGINE_OF.get(pid) == "E" else NOTE_S),
         "technique": tech,
     })
 
@@ -102,8 +108,8 @@ m = {
    "add_only": True,
  },
  "engines": [
-   {"name": "E", "path": "/verif/e", "serves_properties": sorted(p for p in claimed if ENGINE_OF.get(p) == "E"), "kind_free_text": "bounded-exhaustive enumeration driver on the unmodified code (real transports, built macat binary): e/ekit + one package per property"},
-   {"name": "S", "path": "/verif/s", "serves_properties": sorted(p for p in claimed if ENGINE_OF.get(p) != "E"), "kind_free_text": "stateless model checker: source-to-source rewrite of mangos (tools/vrewrite) onto a controlled scheduler with virtual time (s/vz/vsched), deviation-bounded DFS explorer sharded over processes (s/vz/vexplore), harnesses + virtual transport (s/vh)"},
+   {"name": "E", "path": "/verif/e", "serves_properties": sorted(p for p in claimed if "E" in ENGINE_OF.get(p, "S")), "kind_free_text": "bounded-exhaustive enumeration driver on the unmodified code (real transports, built macat binary): e/ekit + one package per property"},
+   {"name": "S", "path": "/verif/s", "serves_properties": sorted(p for p in claimed if "S" in ENGINE_OF.get(p, "S")), "kind_free_text": "stateless model checker: source-to-source rewrite of mangos (tools/vrewrite) onto a controlled scheduler with virtual time (s/vz/vsched), deviation-bounded DFS explorer sharded over processes (s/vz/vexplore), harnesses + virtual transport (s/vh)"},
  ],
  "checks": checks,
  "not_applicable": [{"property_id": k, "reason": v} for k, v in sorted(not_applicable.items())],
